@@ -552,6 +552,18 @@ def sample(ctx, budget=1.0, hint=None, broken=None):
                 warnings.simplefilter('ignore')
                 Lw = warc.length(wt0, wt1)
             gw = gauss(lambda tau: abs(warc.derivative(tau)), wt0, wt1)
+            wsrc2 = ('svgpathtools.CubicBezier(start=(-0.08405880819010325-0.49192067969558617j), control1=(-0.4878000128764848-0.05636492154796846j), '
+                     'control2=(-0.658840809700296-0.3786111144539426j), end=(-0.08075308200005171-0.23238462662476178j))')
+            wcub = eval(wsrc2, {'svgpathtools': spt})
+            n_eval += 1
+            with warnings.catch_warnings():
+                warnings.simplefilter('ignore')
+                Lc = wcub.length()
+            lo_c, hi_c = bracket(list(wcub.bpoints()), 0.0, 1.0)
+            if not (lo_c * (1 - 1e-6) <= Lc <= hi_c * (1 + 1e-6)):
+                fail('length outside chord/control-polygon bracket (cubic scipy=True)', 'length() is outside the rigorous bracket of a 2^10 subdivision (a cubic with a sharp speed minimum: '
+                     'quad\'s default relative tolerance accepts a first estimate that is off by 5e-4)', {'seg': repr(wcub), 't0': 0.0, 't1': 1.0, 'scipy': True}, repr(Lc),
+                     '[%r, %r]' % (lo_c, hi_c), wsrc2 + '.length()')
             if abs(Lw - gw) > 1e-6 * gw:
                 fail('length differs from quadrature (arc scipy=True)', 'length(t0,t1) differs from composite Gauss-Legendre quadrature of |derivative| (eccentric arc: quad\'s '
                      'default relative tolerance accepts a first estimate that is off by 4e-5)', {'seg': repr(warc), 't0': wt0, 't1': wt1, 'scipy': True},
